@@ -101,7 +101,10 @@ Prog(cfg) ==
     \* value, e with c's (stream mode: mergeValues over the stream copies; array-backed sources are folded into one array)
     [] cfg.shape = "fofi" -> <<[op |-> "fofi", p |-> Unit(N[1].n, Range(N[1].nat), N[1].oc, ""), q |-> <<N[2], N[3]>>, c |-> <<N[4], N[5]>>]>>
     [] cfg.shape = "branch" -> NodeUnits(cfg, N[1]) \o <<[op |-> "branch"]>> \o NodeUnits(cfg, NodeByName(cfg, cfg.pick))
-    [] cfg.shape = "keys" -> IF Len(N) = 1 THEN <<[op |-> "inkey", k |-> "x"]>> \o NodeUnits(cfg, N[1]) \o <<[op |-> "outkey", k |-> "out"]>>
+    \* keypt: the input key sits on a PASS-THROUGH node in front of each node (START -> p1[inkey x] -> a[outkey mid] -> p2[inkey mid] -> b[outkey out]):
+    \* a pass-through is the identity unit in every paradigm and takes its type from its successor's INPUT side, whose output side
+    \* (map[string]any after the output key) differs from it; the lowering is therefore the one of "keys"
+    [] cfg.shape \in {"keys", "keypt"} -> IF Len(N) = 1 THEN <<[op |-> "inkey", k |-> "x"]>> \o NodeUnits(cfg, N[1]) \o <<[op |-> "outkey", k |-> "out"]>>
                              ELSE <<[op |-> "inkey", k |-> "x"]>> \o NodeUnits(cfg, N[1]) \o <<[op |-> "outkey", k |-> "mid"], [op |-> "inkey", k |-> "mid"]>>
                                   \o NodeUnits(cfg, N[2]) \o <<[op |-> "outkey", k |-> "out"]>>
 
@@ -249,7 +252,7 @@ vars == <<cfg, phase, pos, acc>>
 NoFail == [n |-> "", how |-> ""]
 EmptyCfg == [shape |-> "", nodes |-> <<>>, in |-> <<>>, dup |-> FALSE, pick |-> "", bstrm |-> FALSE, z |-> FALSE, fail |-> NoFail, anyout |-> FALSE]
 NodesWanted(sh) == CASE sh = "fofi" -> {5} [] sh \in {"ebr", "eskw", "eskg"} -> {3} [] sh \in {"nil1", "nilin"} -> {1} [] sh \in {"nil2", "nilif"} -> {2} [] sh = "nilbr" -> {3} [] sh = "fank" -> 4..MaxNodes [] sh \in {"fmap", "fmapn", "nmap", "nmapn"} -> {2} [] sh = "chain" -> 1..MaxNodes [] sh = "nested" -> 2..MaxNodes [] sh = "fan2" -> {2} [] sh = "fan3" -> {3}
-                     [] sh = "branch" -> {3} [] sh = "keys" -> 1..(IF MaxNodes > 2 THEN 2 ELSE MaxNodes)
+                     [] sh = "branch" -> {3} [] sh \in {"keys", "keypt"} -> 1..(IF MaxNodes > 2 THEN 2 ELSE MaxNodes)
 HandlerOK(sh) == sh \in {"chain"}
 Init == cfg = EmptyCfg /\ phase = "shape" /\ pos = 0 /\ acc = <<>>
 ChooseShape(sh) == /\ phase = "shape" /\ cfg' = [cfg EXCEPT !.shape = sh] /\ phase' = "nodes" /\ UNCHANGED <<pos, acc>>
@@ -274,7 +277,7 @@ Finish(in, dup, pick, bstrm, z, f, anyout) ==
   /\ (dup => cfg.shape \in {"fan2", "fan3"} /\ AllowDup)
   /\ (cfg.shape \in {"branch", "nilbr", "eskw", "eskg"} => pick \in {"b", "c"}) /\ (cfg.shape = "ebr" => pick = "b")
   /\ (cfg.shape \notin {"branch", "nilbr", "ebr", "eskw", "eskg"} => pick = "" /\ ~bstrm)
-  /\ (z => cfg.shape = "keys")
+  /\ (z => cfg.shape \in {"keys", "keypt"})
   /\ (anyout => AllowAny /\ cfg.shape = "chain" /\ Len(cfg.nodes) >= 2 /\ Range(cfg.nodes[1].nat) \in {{"I"}, {"C"}} /\ cfg.nodes[1].post = "none")
   /\ (f.n # "" => AllowFail /\ ~dup /\ f.n \in Executed([cfg EXCEPT !.pick = pick])
                   /\ (f.how \in {"item", "eof"} => \E i \in 1..Len(cfg.nodes) : cfg.nodes[i].n = f.n /\ UsesOC(Range(cfg.nodes[i].nat))))
@@ -283,7 +286,7 @@ Finish(in, dup, pick, bstrm, z, f, anyout) ==
   \* the four paradigms start from: Invoke the concatenated value; Stream the boxed value (streamByTransform); Collect and
   \* Transform the chunks themselves.  In the keys shape the bare input is the value under key "x" (plus an unrelated chunk).
   /\ LET wrapIn(ss) == IF cfg.shape = "nilin" THEN [i \in 1..Len(ss) |-> Bare("")]        \* the graph input is nil: one nil value / Len(in) nil chunks
-                       ELSE IF cfg.shape = "keys" THEN (IF z THEN <<("z" :> "q")>> ELSE <<>>) \o Wrap("x", ss) ELSE Wrap("", ss)
+                       ELSE IF cfg.shape \in {"keys", "keypt"} THEN (IF z THEN <<("z" :> "q")>> ELSE <<>>) \o Wrap("x", ss) ELSE Wrap("", ss)
          whole == ConcatChunks(wrapIn(in))
      IN acc' = [I |-> ValOK(whole), S |-> StrOK(Box(whole)), C |-> StrOK(wrapIn(in)), T |-> StrOK(wrapIn(in))]
 FailChoices == {NoFail} \cup (IF AllowFail THEN {[n |-> Names[i], how |-> h] : i \in 1..3, h \in {"call", "item", "eof"}} ELSE {})
